@@ -10,8 +10,8 @@
      11..19      MODEL mismatch   (1 normalized, 2 sorted, 3 n_keys, 4 minimum_n_keys,
                                    5 at_age, 6 at_lock_time, 7 entails, 8 check_timelocks, 9 lift)
      21..29      ORACLE failure of the same function, not in a known class
-     34 37 38 39 ORACLE failure inside a known deviation class (PolTruth: has_dup_keys,
-                 entails_defect, not all_sat, and_arity_bad)
+     34 39       ORACLE failure inside a known deviation class (PolTruth: has_dup_keys,
+                 lift_refusal_defect)
    Codes >= 30 are tolerated by [cases_ok]; tools/props/c18.py reports them under their
    known_findings key. *)
 From Coq Require Import List NArith Bool Arith ZArith Uint63.
@@ -268,7 +268,7 @@ Definition check_case (c : case) : list N :=
                         end) locks
   | CaseEnt p q r =>
       flag 17 (N.eqb r (eres_code (entails p q)))
-      ++ (let bad := if entails_defect p q then 37%N else 27%N in
+      ++ (let bad := 27%N in
           match r with
           | 0%N => flag bad (ENTAILMENT_MAX_TERMINALS <? n_terminals p)   (* None only for big policies *)
           | 1%N => flag bad (negb (implies_b p q))
@@ -278,20 +278,19 @@ Definition check_case (c : case) : list N :=
   | CaseConc c ct l lp =>
       let mixed := mixed_b c in
       flag 18 (N.eqb ct (if check_timelocks c then 1 else 0))
-      ++ flag (if negb mixed && N.eqb ct 0 && negb (all_sat c) then 38 else 28)
-              (N.eqb ct (if mixed then 0 else 1))
+      ++ flag 28 (N.eqb ct (if mixed then 0 else 1))
       ++ flag 19 (match lift c, l, lp with
                   | LOk s, 0%N, Some o => spol_eqb o s
                   | LErrTimelock, 1%N, None => true
-                  | LPanic _, 99%N, None => true
                   | _, _, _ => false
                   end)
-      ++ (let bad := if and_arity_bad c then 39%N else 29%N in
-          match l, lp with
-          | 0%N, Some o => flag bad (isnone (cex_lift c o))
-          | 1%N, None => flag bad (N.eqb ct 0)       (* refusing to lift only for the time-lock reason *)
-          | _, _ => [bad]
-          end)
+      ++ match l, lp with
+         | 0%N, Some o => flag 29 (isnone (cex_lift c o))
+         | 1%N, None =>
+             (* refusing to lift is right only when check_timelocks itself refuses *)
+             flag (if lift_refusal_defect c then 39 else 29) (N.eqb ct 0)
+         | _, _ => [29%N]
+         end
   end.
 
 Definition acceptable (codes : list N) : bool := forallb (fun x => (30 <=? x)%N) codes.
